@@ -6,10 +6,12 @@ import (
 	"go/types"
 
 	"github.com/go-critic/go-critic/checkers/internal/astwalk"
+	"github.com/go-critic/go-critic/checkers/internal/lintutil"
 	"github.com/go-critic/go-critic/linter"
 
 	"github.com/go-toolsmith/astequal"
 	"github.com/go-toolsmith/typep"
+	"golang.org/x/tools/go/ast/astutil"
 )
 
 func init() {
@@ -88,9 +90,27 @@ func (c *dupSubExprChecker) checkBinaryExpr(expr *ast.BinaryExpr) {
 	if c.resultIsFloat(expr.X) && c.floatOpsSet[expr.Op] {
 		return
 	}
+	if c.yieldsFreshValue(expr.X) {
+		return
+	}
 	if typep.SideEffectFree(c.ctx.TypesInfo, expr) && c.opSet[expr.Op] && astequal.Expr(expr.X, expr.Y) {
 		c.warn(expr)
 	}
+}
+
+// yieldsFreshValue reports whether every evaluation of x gives a new, distinct
+// value: &T{} == &T{} compares two different pointers.
+func (c *dupSubExprChecker) yieldsFreshValue(x ast.Expr) bool {
+	return lintutil.ContainsNode(x, func(n ast.Node) bool {
+		switch n := n.(type) {
+		case *ast.UnaryExpr:
+			_, ok := astutil.Unparen(n.X).(*ast.CompositeLit)
+			return ok && n.Op == token.AND
+		case *ast.FuncLit:
+			return true
+		}
+		return false
+	})
 }
 
 func (c *dupSubExprChecker) resultIsFloat(expr ast.Expr) bool {
